@@ -258,6 +258,29 @@ pub fn cms_history(ctx: &mut Ctx, nops: u64) {
             ctx.op("cms.empty 5".into());
         }
     }
+    // content that arrives only through merge (and zero-weight adds), then clear, then reads and a
+    // first add: every way of putting content into a sketch must count for `clear`
+    {
+        ctx.hasher(bh);
+        let src = ctx.rng.range(1, 3);
+        ctx.op(format!("cms.new 6 {} {} {}", ct, w, d));
+        let a = ctx.op(format!("cms.merge 6 {}", src));
+        if a == "ok" {
+            ctx.stat("cms.mergeonly.clear", 1);
+            if ctx.rng.chance(1, 2) {
+                ctx.op(format!("cms.addn 6 {} 0", *ctx.rng.clone().pick(&keys)));
+            }
+            ctx.op("cms.empty 6".into());
+            ctx.op("cms.clear 6".into());
+            ctx.op("cms.empty 6".into());
+            for key in keys.iter().take(12) {
+                ctx.op(format!("cms.query 6 {}", key));
+            }
+            let k = *ctx.rng.pick(&keys);
+            ctx.op(format!("cms.add 6 {}", k));
+            ctx.op(format!("cms.query 6 {}", k));
+        }
+    }
     if ctx.rng.chance(1, 5) {
         ctx.op(format!("cms.new 8 {} {} {}", ct, w + 1, d));
         ctx.op("cms.merge 1 8".into());
@@ -406,6 +429,9 @@ pub fn qf_history(ctx: &mut Ctx, nops: u64) {
     let (q, r) = match ctx.rng.below(10) {
         0 => (ctx.rng.range(1, 4), 64 - ctx.rng.range(1, 4)), // q + r up to 64
         1 => (4, 60),
+        // tables of several 64-slot blocks (the bit vectors are arrays of 64-bit words): clusters are
+        // then concentrated around a block boundary, see `block` below
+        2 => (ctx.rng.range(6, 8), ctx.rng.range(2, 6)),
         _ => (ctx.rng.range(1, 5), ctx.rng.range(1, 6)),
     };
     let (q, r) = if q + r > 64 { (q, 64 - q) } else { (q, r) };
@@ -418,9 +444,20 @@ pub fn qf_history(ctx: &mut Ctx, nops: u64) {
     let nrem = ctx.rng.range(1, 4).min(if r >= 63 { 4 } else { 1u64 << r });
     // quotient universe: all, or concentrated near the end of the array (wrapping clusters)
     let conc = ctx.rng.chance(1, 2);
+    let block = 64 * ctx.rng.below((nslots / 64).max(1));
+    if q >= 6 {
+        ctx.stat("qf.blockboundary", 1);
+    }
     let mut pool: Vec<u64> = vec![];
     for _ in 0..(2 * nslots + 4) {
-        let quo = if conc { (nslots - 1 - ctx.rng.below(nslots.min(3))) % nslots } else { ctx.rng.below(nslots) };
+        let quo = if q >= 6 {
+            // within [-9, +6] of a multiple of 64 (slot 0 = the wrap-around boundary included)
+            (block + nslots - 9 + ctx.rng.below(16)) % nslots
+        } else if conc {
+            (nslots - 1 - ctx.rng.below(nslots.min(3))) % nslots
+        } else {
+            ctx.rng.below(nslots)
+        };
         let rem = ctx.rng.below(nrem) + if r > 3 { ctx.rng.below(2) * 5 } else { 0 };
         // wide remainders: set high bits too (above bit 31, the top bit)
         let rem = if r > 8 && ctx.rng.chance(1, 2) { rem | (1u64 << (r - 1).min(63)) | if r > 34 { 1u64 << 33 } else { 0 } } else { rem };
@@ -824,6 +861,10 @@ pub fn td_history_shaped(ctx: &mut Ctx, n: u64, force_atom: Option<bool>) {
     ctx.stat(&format!("td.shape.{}", shape), 1);
     // whole history scaled to a tiny / huge weight unit (positive weights far below f64::EPSILON)
     let wunit = if weighted && force_atom.is_none() && ctx.rng.chance(1, 3) { *ctx.rng.pick(&[1e-30f64, 1e-18, 1e6]) } else { 1.0 };
+    let frac_only = weighted && force_atom.is_none() && ctx.rng.chance(1, 4);
+    if frac_only {
+        ctx.stat("td.weights.frac_only", 1);
+    }
     let mut inserted: Vec<f64> = vec![];
     for t in 0..n {
         let x = match shape {
@@ -856,6 +897,8 @@ pub fn td_history_shaped(ctx: &mut Ctx, n: u64, force_atom: Option<bool>) {
                 7 => 1e-20,
                 _ => 1.0,
             };
+            // histories in which every weight is below 1 (K2/K3 must count samples, not weight)
+            let w = if frac_only && w >= 1.0 { *ctx.rng.pick(&[0.5f64, 0.25, 0.999, 0.125]) } else { w };
             let w = if shape == 6 && x == near { atom_w } else { w };
             let w = w * wunit;
             ctx.op(format!("td.insertw 1 {} {}", fx(x), fx(w)));
@@ -947,6 +990,26 @@ pub fn td_history_shaped(ctx: &mut Ctx, n: u64, force_atom: Option<bool>) {
         }
         ctx.op("td.ncent 1".into());
         ctx.op(format!("td.quantile 1 {}", fx(0.3)));
+    }
+    // positive weights at the very bottom of the f64 range (subnormal, smallest normal): such an insert
+    // is an insert -- is_empty, min, max and count see it -- whether it comes first or into a loaded digest
+    if ctx.rng.chance(1, 3) {
+        ctx.stat("td.weights.subnormal", 1);
+        let w = *ctx.rng.pick(&[5e-324f64, 1e-310, 2.2250738585072014e-308, 1e-300]);
+        ctx.op(format!("td.new 8 {} {} {}", scale, fx(delta), bl));
+        ctx.op(format!("td.insertw 8 {} {}", fx(1000.0), fx(w)));
+        for o in ["td.empty 8", "td.min 8", "td.max 8", "td.count 8"] {
+            ctx.op(o.into());
+        }
+        ctx.op(format!("td.insert 8 {}", fx(3.0)));
+        ctx.op(format!("td.insertw 8 {} {}", fx(-7.0), fx(w)));
+        for o in ["td.empty 8", "td.min 8", "td.max 8", "td.count 8", "td.ncent 8"] {
+            ctx.op(o.into());
+        }
+        ctx.op(format!("td.insertw 1 {} {}", fx(1e9), fx(w)));
+        for o in ["td.empty 1", "td.min 1", "td.max 1"] {
+            ctx.op(o.into());
+        }
     }
     // clone_from into a digest with another compression / backlog size / sample count whose
     // backlog is not empty (fewer inserts than its backlog size and no read since)
